@@ -9,58 +9,120 @@ import (
 	"golang.org/x/tools/go/ssa"
 )
 
-func runC18R3(c *Ctx) {
-	sd := c.fn("proxy", "Shutdown")
-	servers := c.global("proxy", "servers")
-	if !c.need("C18.R3", sd, "proxy.Shutdown") || servers == nil {
-		if servers == nil {
-			c.undecided("C18.R3", "proxy.servers|registry", "package variable servers not found")
-		}
-		return
+// c18Section: where the lock that protects instruction i is held: i itself when a mutex is (must-)held at it,
+// otherwise the single static call site of the helper i sits in (a helper called with the lock held).
+func c18Section(i ssa.Instruction, depth int) ssa.Instruction {
+	if len(heldAt(i, false)) > 0 {
+		return i
 	}
-	var lock, unlock ssa.Instruction
-	eachInstr(sd, func(i ssa.Instruction) {
-		if cc := callCommon(i); cc != nil {
-			switch calleeName(cc) {
-			case "(*sync.Mutex).Lock", "(*sync.RWMutex).Lock":
-				if lock == nil {
-					lock = i
-				}
-			case "(*sync.Mutex).Unlock", "(*sync.RWMutex).Unlock":
-				if unlock == nil {
-					if _, isDefer := i.(*ssa.Defer); !isDefer {
-						unlock = i
-					}
-				}
-			}
-		}
-	})
-	emptied := false
-	eachInstr(sd, func(i ssa.Instruction) {
-		inRegion := lock != nil && dominatesInstr(lock, i) && (unlock == nil || !canReach(unlock, i))
-		if !inRegion {
+	f := i.Parent()
+	if depth >= 2 || f == nil || !c18OnlyStatic(f) || len(gSites[f]) != 1 {
+		return nil
+	}
+	s := gSites[f][0]
+	if _, isCall := s.(*ssa.Call); !isCall || s.Parent() == f {
+		return nil
+	}
+	return c18Section(s, depth+1)
+}
+
+// c18SameHold: a and b (instructions of one function, both under a lock) lie in one critical section: no
+// non-deferred unlock can run between them.
+func c18SameHold(a, b ssa.Instruction) bool {
+	if a == nil || b == nil || a.Parent() != b.Parent() {
+		return false
+	}
+	if a == b {
+		return true
+	}
+	ok := true
+	eachInstr(a.Parent(), func(u ssa.Instruction) {
+		if _, k := lockCallKind(u); k != "unlock" && k != "runlock" {
 			return
 		}
-		if st, ok := i.(*ssa.Store); ok && st.Addr == servers {
-			if _, isMake := st.Val.(*ssa.MakeMap); isMake {
-				emptied = true
-			}
+		if (canReach(a, u) && canReach(u, b)) || (canReach(b, u) && canReach(u, a)) {
+			ok = false
 		}
-		if cc := callCommon(i); cc != nil && (calleeName(cc) == "builtin.clear" || calleeName(cc) == "builtin.delete") && len(cc.Args) > 0 {
-			if u, ok := cc.Args[0].(*ssa.UnOp); ok && u.X == servers {
-				if calleeName(cc) == "builtin.clear" {
-					emptied = true
-				} else {
-					// delete inside the snapshot loop over the registry itself
-					for _, l := range loopsOf(sd) {
-						if l.Body[i.Block()] {
-							emptied = true
+	})
+	return ok
+}
+
+func runC18R3(c *Ctx) {
+	sd := c.fn("proxy", "Shutdown") // exported API
+	if !c.need("C18.R3", sd, "proxy.Shutdown") {
+		return
+	}
+	srvT, _ := c18ServerIface(c)
+	regs := c18Registries(c, srvT)
+	if regs.n == 0 {
+		c.undecided("C18.R3", "proxy.servers|registry", "no package-level map of Server (the registry of running servers) found in package proxy")
+		return
+	}
+	isRegistry := regs.addr
+	// what proxy.Shutdown runs synchronously (the per-server goroutines come after the snapshot)
+	sync := c18SyncRegion(sd, 3)
+	var empties, reads []ssa.Instruction
+	skip := map[ssa.Value]bool{}
+	eachInstrOf(sync, func(f *ssa.Function, i ssa.Instruction) {
+		switch x := i.(type) {
+		case *ssa.Store:
+			if isRegistry(x.Addr) && derives(x.Val, func(v ssa.Value) bool { _, isMake := v.(*ssa.MakeMap); return isMake }) {
+				empties = append(empties, i)
+			}
+		default:
+			cc := callCommon(i)
+			if cc == nil || len(cc.Args) == 0 || !regs.load(cc.Args[0]) {
+				return
+			}
+			switch calleeName(cc) {
+			case "builtin.clear":
+				empties = append(empties, i)
+				skip[cc.Args[0]] = true
+			case "builtin.delete":
+				// delete inside a loop that ranges over the registry itself
+				for _, l := range loopsOf(f) {
+					if !l.Body[i.Block()] {
+						continue
+					}
+					for b := range l.Body {
+						for _, in := range b.Instrs {
+							if nx, ok := in.(*ssa.Next); ok {
+								if rg, ok := nx.Iter.(*ssa.Range); ok && regs.load(rg.X) {
+									empties = append(empties, i)
+									skip[cc.Args[0]] = true
+								}
+							}
 						}
 					}
 				}
 			}
 		}
 	})
+	eachInstrOf(sync, func(_ *ssa.Function, i ssa.Instruction) {
+		if v, ok := i.(ssa.Value); ok && regs.load(v) && !skip[v] {
+			reads = append(reads, i)
+		}
+	})
+	if len(reads) == 0 {
+		c.undecided("C18.R3", "proxy.Shutdown|snapshot of the registry", "proxy.Shutdown (with its helpers) does not read the registry of running servers")
+		return
+	}
+	emptied := false
+	for _, e := range empties {
+		se := c18Section(e, 0)
+		if se == nil {
+			continue
+		}
+		all := true
+		for _, r := range reads {
+			if !c18SameHold(c18Section(r, 0), se) {
+				all = false
+			}
+		}
+		if all {
+			emptied = true
+		}
+	}
 	c.check("C18.R3", "proxy.Shutdown|registry emptied in the critical section that snapshots it", sd.Pos(), emptied,
 		"Shutdown must take the servers out of the registry under the same lock that snapshots them: a server that stays registered while it drains is still found by CloseProxy (the tcp-dynamic loop closes a listener's proxy whenever its route disappears) and by Close, which cut its open tunnels at once — in-flight work that would have finished within the wait is broken")
 }
@@ -71,46 +133,72 @@ func runC18X1(c *Ctx) {
 		c.undecided("C18.X1", "exit|package", "package exit not loaded")
 		return
 	}
-	nFn, nHandler := 0, 0
+	// the exit handler call: a call of a function value (parameter, captured or stored) taking an os.Signal
+	isHandler := func(i ssa.Instruction) bool {
+		cc := callCommon(i)
+		if cc == nil || cc.IsInvoke() || cc.StaticCallee() != nil {
+			return false
+		}
+		if _, isB := cc.Value.(*ssa.Builtin); isB {
+			return false
+		}
+		s, ok := cc.Value.Type().Underlying().(*types.Signature)
+		return ok && s.Params().Len() == 1 && typeStr(s.Params().At(0).Type()) == "os.Signal"
+	}
+	// releasing the registration now (a deferred release runs after the handler returned)
+	isRelease := func(i ssa.Instruction) bool {
+		call, ok := i.(*ssa.Call)
+		if !ok {
+			return false
+		}
+		switch calleeName(&call.Call) {
+		case "os/signal.Stop", "os/signal.Reset", "os/signal.Ignore":
+			return true
+		}
+		return false
+	}
+	isNotify := func(i ssa.Instruction) bool {
+		call, ok := i.(*ssa.Call)
+		if !ok {
+			return false
+		}
+		n := calleeName(&call.Call)
+		return n == "os/signal.Notify" || n == "os/signal.NotifyContext"
+	}
+	mayHandle, mayRelease := c18LiftMay(isHandler), c18LiftMay(isRelease)
+	nHandler := 0
 	for _, f := range c.AllFns {
 		if rootPkg(f) != pkg {
 			continue
 		}
-		nFn++
-		// the exit handler call: a call of a function-typed parameter / free variable taking os.Signal
 		var handlerCalls []ssa.Instruction
 		eachInstr(f, func(i ssa.Instruction) {
-			cc := callCommon(i)
-			if cc == nil || cc.IsInvoke() || cc.StaticCallee() != nil {
-				return
+			if isHandler(i) {
+				nHandler++
 			}
-			if s, ok := cc.Value.Type().Underlying().(*types.Signature); ok && s.Params().Len() == 1 && typeStr(s.Params().At(0).Type()) == "os.Signal" {
+			if _, isGo := i.(*ssa.Go); !isGo && mayHandle(i) {
 				handlerCalls = append(handlerCalls, i)
 			}
 		})
-		nHandler += len(handlerCalls)
 		eachInstr(f, func(i ssa.Instruction) {
-			cc := callCommon(i)
-			if cc == nil {
-				return
-			}
-			switch calleeName(cc) {
-			case "os/signal.Stop", "os/signal.Reset", "os/signal.Ignore":
-			default:
+			if !mayRelease(i) {
 				return
 			}
 			before := false
 			for _, h := range handlerCalls {
-				if canReach(i, h) {
+				// on some path the handler runs after the release without the signals having been captured again
+				if h != i && pathAvoiding(i, h, isNotify) {
 					before = true
 				}
 			}
+			name := "the signal registration is released"
+			if cc := callCommon(i); cc != nil && isRelease(i) {
+				name = calleeName(cc)
+			}
 			c.check("C18.X1", fnKey(f)+"|signals stay captured while the exit handler runs", i.Pos(), !before,
-				calleeName(cc)+" before the exit handler restores the default disposition of SIGINT/SIGTERM/SIGHUP: the handler is where the drain happens (deregister, grace period, proxy.Shutdown(wait)); a second signal during it — double Ctrl-C, a supervisor re-sending TERM, a reload tool's HUP — then kills the process and cuts every in-flight request")
+				name+" before the exit handler restores the default disposition of SIGINT/SIGTERM/SIGHUP: the handler is where the drain happens (deregister, grace period, proxy.Shutdown(wait)); a second signal during it — double Ctrl-C, a supervisor re-sending TERM, a reload tool's HUP — then kills the process and cuts every in-flight request")
 		})
 	}
 	c.atLeast("C18.X1", "exit handler invocations in package exit", nHandler, 1)
 	c.ob("C18.X1", "exit|signal registration not released before the handler", token.NoPos, OK, "scanned package exit for signal.Stop/Reset/Ignore ahead of the handler call")
 }
-
-// ---- C19.D1 / C19.T4 -------------------------------------------------------------------------------------------
